@@ -86,6 +86,7 @@ type c06Block struct {
 	AppHash  []byte    `json:"app_hash"` // header field: the hash instance A committed for the previous block
 	Txs      [][]byte  `json:"txs"`
 	TxDesc   []string  `json:"tx_desc"`
+	Phantoms [][]byte  `json:"phantoms,omitempty"` // signed txs that never land: a node may be asked to SIMULATE them (gas estimation)
 	Proposer []byte    `json:"proposer"`
 }
 
@@ -143,6 +144,13 @@ func c06Events(evs []abci.Event) []c06Event {
 type c06Node struct {
 	app  *japp.JackalApp
 	home string
+	db   dbm.DB
+}
+
+// restart drops the application object and builds a new one over the same database and home
+// directory, as a node process that is stopped and started again between two blocks.
+func (n *c06Node) restart() {
+	n.app = japp.NewJackalApp(log.NewNopLogger(), n.db, nil, true, map[int64]bool{}, n.home, 0, japp.MakeEncodingConfig(), wasm.EnableAllProposals, japp.EmptyBaseAppOptions{}, nil)
 }
 
 func c06NewNode(h *c06History) (*c06Node, error) {
@@ -151,10 +159,11 @@ func c06NewNode(h *c06History) (*c06Node, error) {
 	if err != nil {
 		return nil, err
 	}
-	app := japp.NewJackalApp(log.NewNopLogger(), dbm.NewMemDB(), nil, true, map[int64]bool{}, home, 0, japp.MakeEncodingConfig(), wasm.EnableAllProposals, japp.EmptyBaseAppOptions{}, nil)
+	db := dbm.NewMemDB()
+	app := japp.NewJackalApp(log.NewNopLogger(), db, nil, true, map[int64]bool{}, home, 0, japp.MakeEncodingConfig(), wasm.EnableAllProposals, japp.EmptyBaseAppOptions{}, nil)
 	app.InitChain(abci.RequestInitChain{ChainId: h.ChainID, Time: h.Genesis, Validators: []abci.ValidatorUpdate{}, ConsensusParams: japp.DefaultConsensusParams, AppStateBytes: h.AppState})
 	app.Commit()
-	return &c06Node{app: app, home: home}, nil
+	return &c06Node{app: app, home: home, db: db}, nil
 }
 
 func (n *c06Node) Close() { os.RemoveAll(n.home) }
@@ -182,6 +191,14 @@ func (n *c06Node) end(b *c06Block) ([]c06Event, int, string) {
 
 // c06Replay executes a complete history on a fresh node.
 func c06Replay(h *c06History, pause time.Duration) (*c06Trace, error) {
+	return c06ReplayOpts(h, pause, 0, false)
+}
+
+// c06ReplayOpts: restartEvery > 0 restarts the node (new application object over the same database)
+// after every restartEvery-th block; simulate makes the node answer gas-estimation requests
+// (BaseApp.Simulate) for the block's phantom transactions and for every real transaction before it is
+// delivered.  Neither may change any consensus result: state lives in the store, not in the process.
+func c06ReplayOpts(h *c06History, pause time.Duration, restartEvery int, simulate bool) (*c06Trace, error) {
 	n, err := c06NewNode(h)
 	if err != nil {
 		return nil, err
@@ -192,11 +209,22 @@ func c06Replay(h *c06History, pause time.Duration) (*c06Trace, error) {
 		b := &h.Blocks[i]
 		bt := c06BlockTrace{Height: b.Height}
 		bt.Begin = n.begin(h, b)
+		if simulate {
+			for _, tx := range b.Phantoms {
+				_ = Guard(func() { _, _, _ = n.app.Simulate(tx) })
+			}
+		}
 		for _, tx := range b.Txs {
+			if simulate {
+				_ = Guard(func() { _, _, _ = n.app.Simulate(tx) })
+			}
 			bt.Txs = append(bt.Txs, n.deliver(tx))
 		}
 		bt.End, bt.ValUpd, bt.AppHash = n.end(b)
 		tr.Blocks = append(tr.Blocks, bt)
+		if restartEvery > 0 && (i+1)%restartEvery == 0 {
+			n.restart()
+		}
 		if pause > 0 && i%16 == 0 {
 			time.Sleep(pause)
 		}
@@ -527,6 +555,21 @@ func (g *c06Gen) sendSeq(signer int, desc string, seqDelta int64, msgs ...sdk.Ms
 		g.r.Hist("c06_outcomes", fmt.Sprintf("%s:code-%s-%d", kind, res.Codespace, res.Code))
 	}
 	return res
+}
+
+// phantom signs a transaction with the signer's current sequence and records it as a phantom of the
+// running block: it is never delivered, only simulated by the instance that answers gas estimations.
+func (g *c06Gen) phantom(signer int, msgs ...sdk.Msg) {
+	a := g.accts[signer]
+	acc := g.node.app.AccountKeeper.GetAccount(g.ctx(), a.Addr)
+	if acc == nil {
+		return
+	}
+	bz, err := c06GenTx(g.txCfg, msgs, 2_400_000, g.h.ChainID, acc.GetAccountNumber(), acc.GetSequence(), a.Priv)
+	if err == nil {
+		g.cur.Phantoms = append(g.cur.Phantoms, bz)
+		g.r.Hist("c06_ops", "phantom(simulated only)")
+	}
 }
 
 func (g *c06Gen) blockGas() int64 {
@@ -1324,6 +1367,26 @@ func (g *c06Gen) run() (*c06Trace, error) {
 				u := g.user(0)
 				g.send(u, "oracle.UpdateFeed", &oracletypes.MsgUpdateFeed{Creator: g.accts[u].Addr.String(), Name: "jklprice", Data: fmt.Sprintf("{\"price\":\"0.%d\",\"24h_change\":\"0\"}", 10+g.p.Intn(80))})
 			}
+			// price feed rewritten around a purchase inside one block, a purchase in the next block, and a
+			// never-landing update+purchase that is only simulated: any price remembered outside the store
+			// (per process, per simulation) shows up as a different charge on a restarted / simulating node
+			if height > 6 && height%5 == 1 {
+				u, b1 := g.user(0), g.user(1%cfg.NUsers)
+				feed := func(px int) *oracletypes.MsgUpdateFeed {
+					return &oracletypes.MsgUpdateFeed{Creator: g.accts[u].Addr.String(), Name: "jklprice", Data: fmt.Sprintf("{\"price\":\"%d.%d\",\"24h_change\":\"0\"}", px/100, px%100)}
+				}
+				buy := func(who int) *storagetypes.MsgBuyStorage {
+					return &storagetypes.MsgBuyStorage{Creator: g.accts[who].Addr.String(), ForAddress: g.accts[who].Addr.String(), DurationDays: 400 + int64(g.p.Intn(300)), Bytes: int64(4+g.p.Intn(4)) * 1_000_000_000, PaymentDenom: "ujkl", Referral: ""}
+				}
+				g.phantom(u, feed(700+g.p.Intn(900)), buy(u))
+				g.send(u, "oracle.UpdateFeed", feed(20+g.p.Intn(80)))
+				g.send(b1, "storage.BuyStorage", buy(b1))
+				g.send(u, "oracle.UpdateFeed", feed(200+g.p.Intn(300)))
+			}
+			if height > 6 && height%5 == 2 {
+				b2 := g.user(2 % cfg.NUsers)
+				g.send(b2, "storage.BuyStorage", &storagetypes.MsgBuyStorage{Creator: g.accts[b2].Addr.String(), ForAddress: g.accts[b2].Addr.String(), DurationDays: 400 + int64(g.p.Intn(300)), Bytes: int64(4+g.p.Intn(4)) * 1_000_000_000, PaymentDenom: "ujkl", Referral: ""})
+			}
 			if height == 2+cfg.Blocks-cfg.CheckWindow-3 && len(g.files) > 0 {
 				f := g.files[len(g.files)-1]
 				if f.Posted {
@@ -1369,7 +1432,7 @@ func c06ChallTerm(obs [][3]int64) string {
 }
 
 func runC06(r *RunCtx) error {
-	r.Sum.Rule = "one evaluation = one block executed on three independent app instances (A in-process while generating, B in a separate OS process with other GOMAXPROCS/GOGC and a later wall clock, C in-process replay) and compared (AppHash, every tx result, ordered events), or one reward payout / ACL marshalling / challenge draw checked against the model; non-trivial = block with transactions or a reward block; payout with >= 2 recipients; ACL with >= 2 entries; draw with > 1 piece"
+	r.Sum.Rule = "one evaluation = one block executed on four independent app instances (A in-process while generating, B in a separate OS process with other GOMAXPROCS/GOGC and a later wall clock, C in-process replay, D restarted from its database between blocks and answering Simulate requests for every transaction and for never-landing ones) and compared (AppHash, every tx result, ordered events), or one reward payout / ACL marshalling / challenge draw checked against the model; non-trivial = block with transactions or a reward block; payout with >= 2 recipients; ACL with >= 2 entries; draw with > 1 piece"
 	r.Group("paths", "From JK Require Import Model.Nondet Model.OrderIndep Corr.C06.", "c06_case", "c06_ok")
 	nHist := r.Scale(2, 30)
 	totalPays, totalAcls, totalForms, totalChall := 0, 0, 0, 0
@@ -1421,6 +1484,10 @@ func runC06(r *RunCtx) error {
 		if err != nil {
 			return err
 		}
+		trD, err := c06ReplayOpts(hist, 0, 1+hi%3, true) // restarted between blocks, answers simulations
+		if err != nil {
+			return err
+		}
 		ntx := 0
 		for _, b := range hist.Blocks {
 			ntx += len(b.Txs)
@@ -1438,7 +1505,7 @@ func runC06(r *RunCtx) error {
 		for _, pair := range []struct {
 			name string
 			t    *c06Trace
-		}{{"separate-process", trB}, {"same-process-replay", trC}} {
+		}{{"separate-process", trB}, {"same-process-replay", trC}, {"restarted-and-simulating-node", trD}} {
 			what, height, detail := c06Compare(trA, pair.t)
 			if what == "" {
 				continue
